@@ -42,12 +42,21 @@ def cases(tier, rng, dist):
 
 
 def run(c):
+    # the form in which the caller holds the counts: Python ints, NumPy integer scalars, or 0-d / one-element integer arrays
+    # (e.g. the result of arr.sum(keepdims=...) or an element view); the SAME objects are passed to a second call
+    names = ["x", "N", "n", "G"] if c["f"] == "hyper" else ["x", "n"]
+    form = (sum(c[k] for k in names) + len(c["alt"])) % 4
+    mk = [int, np.int64, lambda v: np.array(v), lambda v: np.array([v])[0:1].reshape(())][form]
+    args = {k: mk(c[k]) for k in names}
     if c["f"] == "hyper":
-        r = guarded(lambda: float(hypergeometric(c["x"], c["N"], c["n"], c["G"], c["alt"])))
+        call = lambda: float(hypergeometric(args["x"], args["N"], args["n"], args["G"], c["alt"]))
     else:
         p = c["pa"] / (c["pa"] + c["pb"])
-        r = guarded(lambda: float(binomial_p(c["x"], c["n"], p, c["alt"])))
-    return {"r": list(r)}
+        call = lambda: float(binomial_p(args["x"], args["n"], p, c["alt"]))
+    r = guarded(call)
+    after1 = {k: int(args[k]) for k in names}
+    r2 = guarded(call)
+    return {"r": list(r), "again": list(r2), "args_after": after1, "form": form}
 
 
 def exact(c):
@@ -75,8 +84,13 @@ def oracle(c, o):
         if r[0] != "exc" or r[1] != "ValueError":
             return {"why": f"inadmissible arguments {c} did not raise ValueError: {r}", "cls": f"{c['f']}:guard-missing"}
         return None
+    names = ["x", "N", "n", "G"] if c["f"] == "hyper" else ["x", "n"]
+    if any(o["args_after"][k] != c[k] for k in names):
+        return {"why": f"{c['f']} changed the caller's count objects: passed {[c[k] for k in names]} (as {['int', 'np.int64', '0-d array', '0-d view'][o['form']]}), afterwards {o['args_after']}", "cls": f"{c['f']}:input-modified"}
     if r[0] != "ok":
         return {"why": f"admissible arguments {c} raised {r[1]}: {r[2]}", "cls": f"{c['f']}:raises"}
+    if o["again"][0] != "ok" or o["again"][1] != r[1]:
+        return {"why": f"{c}: a second call with the same argument objects returned {o['again'][:2]}, the first {r[1]}", "cls": f"{c['f']}:wrong-tail:{c['alt']}"}
     if not math.isfinite(r[1]) or not (abs(Fraction(r[1]) - e) <= Fraction(1, 10**10)):
         return {"why": f"{c}: returned {r[1]}, exact {float(e)}", "cls": f"{c['f']}:wrong-tail:{c['alt']}"}
     return None
